@@ -50,7 +50,7 @@ class ClientMetadataClaims(BaseClaims):
         uri = self.get(key)
         uris = uri if isinstance(uri, list) else [uri]
         for uri in uris:
-            if uri and not is_valid_url(uri):
+            if uri and (not isinstance(uri, str) or not is_valid_url(uri)):
                 raise InvalidClaimError(key)
 
     @classmethod
@@ -61,7 +61,10 @@ class ClientMetadataClaims(BaseClaims):
         if acr_values_supported := metadata.get("acr_values_supported"):
 
             def _validate_default_acr_values(claims, value):
-                return not value or set(value).issubset(set(acr_values_supported))
+                try:
+                    return not value or set(value).issubset(set(acr_values_supported))
+                except TypeError:
+                    return False
 
             options["default_acr_values"] = {"validate": _validate_default_acr_values}
 
